@@ -25,6 +25,7 @@ BOUNDS = {
 RULE = (
     "BFS to fixpoint over building histories on buckets A and B (insert, bulk pair, upsert, replace, replace_last, delete with own ids; <=K live events each; instants coincide across buckets); "
     "in every reachable state every probe op is applied to A: insert, single insert carrying an id, bulk upsert, mixed bulk, replace, delete with each id present anywhere in the database or never-existed, replace_last, update_bucket per field, delete_bucket; "
+    "plus 8 REJECTED operations (unserialisable event data in insert/bulk/upsert/replace/replace_last, update without fields, update/delete of an absent bucket) issued while the last write of the history is still unobserved; "
     "non-trivial = probes carrying an id that belongs to another bucket, or probes whose instants coincide with an event of another bucket"
 )
 ASSUMPTIONS = [
@@ -51,13 +52,53 @@ def setup(backend, wdir):
     return ds
 
 
-def replay(backend, wdir, hist):
+def replay(backend, wdir, hist, skip_last_read=False):
+    """skip_last_read: leave the last op's write unobserved (on the lazily committing store it is
+    then still buffered), for probes whose failure must not take other buckets' recent writes along"""
     ds = setup(backend, wdir)
     ms = {b: BL.BModel() for b in BUCKETS}
-    for bid, op in hist:
+    for n, (bid, op) in enumerate(hist):
         BL.perform(ds, bid, ms[bid], op, _G["emb"])
+        if skip_last_read and n == len(hist) - 1:
+            break
         ms[bid].live = {t[0]: t[1:] for t in S.dump_bucket(ds, bid)}
     return ds, ms
+
+
+class _Unserialisable:
+    pass
+
+
+FAULT_PROBES = ("ins_bad", "bulk_bad", "ups_bad", "rep_bad", "repl_bad", "update_nothing", "delete_absent_bucket", "update_absent_bucket")
+
+
+def do_fault_probe(ds, ms, name):
+    """operations on A (or on an absent bucket) that are rejected: they may raise, and must not touch other buckets"""
+    emb = _G["emb"]
+    a = ds["A"]
+    bad = emb.ev(1, 1, {"bad": _Unserialisable()})
+    ids = ms["A"].ids()
+    try:
+        if name == "ins_bad":
+            a.insert(bad)
+        elif name == "bulk_bad":
+            a.insert([emb.ev(0, 1, _G["lab"][0]), bad])
+        elif name == "ups_bad":
+            bad.id = ids[0] if ids else NEVER
+            a.insert([bad])
+        elif name == "rep_bad":
+            a.replace(ids[0] if ids else NEVER, bad)
+        elif name == "repl_bad":
+            a.replace_last(bad)
+        elif name == "update_nothing":
+            ds.update_bucket("A")
+        elif name == "delete_absent_bucket":
+            ds.delete_bucket("no-such-bucket")
+        elif name == "update_absent_bucket":
+            ds.update_bucket("no-such-bucket", type_id="x")
+        return "ok"
+    except Exception as e:
+        return "raised-" + type(e).__name__
 
 
 def frame(ds, exclude):
@@ -194,6 +235,24 @@ def _expand(hist):
                 case,
                 size=len(hist) * 100 + len(json.dumps(case)),
             )
+    # rejected operations, issued while the last write of the history is still unobserved (buffered
+    # on the lazily committing store): the frame expected is the one of the fully observed twin
+    if hist:
+        dsf, msf = replay(backend, wdir, hist)
+        f_want = frame(dsf, "A")
+        for name in FAULT_PROBES:
+            ds2, mm2 = replay(backend, wdir, hist, skip_last_read=True)
+            res = do_fault_probe(ds2, msf, name)
+            f1 = frame(ds2, "A")
+            u.transitions += 1
+            u.evaluations += 1
+            u.traces += 1
+            u.nontrivial += 1
+            u.hist[f"fault_{name}_{'ok' if res == 'ok' else 'raised'}"] += 1
+            if f1 != f_want:
+                chg = [b for b in f_want if f_want[b] != f1.get(b)]
+                case = {"backend": backend, "history": [[b, list(o)] for b, o in hist], "fault_probe": name, "alphabet": c["Ename"]}
+                u.violation(f"{backend}:{name}:rejected-op:other-bucket-changed", f"{backend} history {list(hist)} (last write unobserved): rejected {name} on A ({res}) changed bucket(s) {chg}: expected {[f_want[b][1] for b in chg][:1]} got {[f1.get(b, (None, None))[1] for b in chg][:1]}", case, size=len(hist) * 100 + len(name))
     if len(hist) == 1:
         u.sample({"backend": backend, "history": [[b, list(o)] for b, o in hist], "probes_on_A": len(probes), "building_ops": len(blds)}, cap=1)
     r = u.result()
@@ -233,6 +292,13 @@ def run_case(ctx, case):
     backend = case["backend"]
     hist = tuple((b, BL.tup(o)) for b, o in case["history"])
     ds, mm = replay(backend, ctx.wdir(), hist)
+    if "fault_probe" in case:
+        f_want = frame(ds, "A")
+        ds2, _ = replay(backend, ctx.wdir(), hist, skip_last_read=True)
+        res = do_fault_probe(ds2, mm, case["fault_probe"])
+        f1 = frame(ds2, "A")
+        chg = [b for b in f_want if f_want[b] != f1.get(b)]
+        return {"fault_probe": case["fault_probe"], "result": res, "expected_other_buckets": f_want, "observed": f1, "violations": [["other-bucket-changed", b] for b in chg]}
     if "probe" in case:
         op = BL.tup(case["probe"])
         f0 = frame(ds, "A")
